@@ -24,6 +24,8 @@ the `<tbl>` argument: `in=out;in=out…`, hex, sent by the harness from x/text).
   `D<i>` Disable, `E<i>` Enable, `A<i>` SetAutoDecodeAllContentType, `N<i>` SetAutoDecodeContentTypeFunc(nil),
   `F<i>:<0|1>` a custom function (its verdict on this content type), `L<i>:<hexlist>`
   SetAutoDecodeContentType(list), `C<i>` Clone of member `i`.
+* `c15out …as c15read…` / `c15outp …as c15readp…` — the same, answer reduced to `<hex of everything returned> <eof|…>` (lane
+  `e2e`: responses whose outcome the theorems make independent of the network split; the installed reader is not observable there).
 * `c15cfg <prog> <use> <grid>` — the selection alone, over a grid of responses: `grid` =
   `,`-joined `<content-type hex>/<ae hex>/<mp>/<lk>` entries (`lk` = a decoder id, or `W:<ok|nil|err>`: WHATWG table of the model, then what ianaindex says); in `prog` a custom function may also be named
   (`G<i>:<k>`, the harness' three fixed functions: suffix `+verif`, even length, contains `charset`).
@@ -500,7 +502,15 @@ def laneFind : List String → String
     r.getD "bad-op"
   | _ => "bad-op"
 
+/-- the first two words of an answer -/
+def firstTwo (s : String) : String :=
+  match s.splitOn " " with
+  | a :: b :: _ => a ++ " " ++ b
+  | _ => s
+
 def lanes : List (String × (List String → String)) := [
+  ("c15out", fun a => firstTwo (laneRead a)),
+  ("c15outp", fun a => firstTwo (laneReadP a)),
   ("c15read", laneRead),
   ("c15readp", laneReadP),
   ("c15cfg", laneCfg),
